@@ -24,6 +24,12 @@
 (*                  parity-partner map; irrelevant when every generator    *)
 (*                  owns its map, decisive under deviation "SharedNameMap" *)
 (*                  (one class-level dict shared by all generators).       *)
+(*   nameMap[b]     the naming flags under which b's generator last rebuilt *)
+(*                  its parity-partner map: every flag setter rebuilds it  *)
+(*                  (deviation "LazyNameMapOnLs": assigning the LS flag of *)
+(*                  the canonical generator does not, so the map - and the *)
+(*                  coefficient names of the model - are those of the      *)
+(*                  flags of an earlier moment of the history).            *)
 (*   dpdRx[ref]     the reaction (RxOf) of the builder that first filled   *)
 (*                  the module-level DPD cache for that reference          *)
 (*                  subsystem; decisive under deviation "CrossReactionCache"*)
@@ -51,14 +57,16 @@ CONSTANTS Builders,     \* builder objects living in one process
           MaxOps,       \* bound on the length of a history
           Dev
 
-VARIABLES cfg, choice, perm, out, dpdCache, leaked, nops, nameOwner, dpdRx, firstRx
-vars == <<cfg, choice, perm, out, dpdCache, leaked, nops, nameOwner, dpdRx, firstRx>>
+VARIABLES cfg, choice, perm, out, dpdCache, leaked, nops, nameOwner, dpdRx, firstRx, nameMap
+vars == <<cfg, choice, perm, out, dpdCache, leaked, nops, nameOwner, dpdRx, firstRx, nameMap>>
 
-\* naming options of the amplitude name generator (builder.naming.insert_parent_helicities / insert_child_helicities)
-Namings == {"default", "parent", "nochild"}
+\* naming options of the amplitude name generator: builder.naming.insert_parent_helicities / insert_child_helicities /
+\* insert_ls_combinations, one property setter each; TRUE = the other value than the generator was constructed with
+NameFlags == {"parent", "child", "ls"}
+DefaultNaming == [f \in NameFlags |-> FALSE]
 
 None == "none"
-DefaultCfg == [align |-> "none", stable |-> "none", scalar |-> FALSE, coup |-> FALSE, naming |-> "default"]
+DefaultCfg == [align |-> "none", stable |-> "none", scalar |-> FALSE, coup |-> FALSE, naming |-> DefaultNaming]
 Refs == { a \in Aligns : a \notin {"none", "axis"} }
 
 Init == /\ cfg = [b \in Builders |-> DefaultCfg]
@@ -71,27 +79,29 @@ Init == /\ cfg = [b \in Builders |-> DefaultCfg]
         /\ nameOwner \in Builders
         /\ dpdRx = [r \in Refs |-> ""]
         /\ firstRx = ""
+        /\ nameMap = [b \in Builders |-> DefaultNaming]
 
 Tick == nops < MaxOps /\ nops' = nops + 1
 Key(b) == <<RxOf[b], cfg[b], choice[b], perm[b]>>
 
 SetAlign(b, a) == /\ Tick /\ cfg' = [cfg EXCEPT ![b].align = a]
-                  /\ UNCHANGED <<choice, perm, out, dpdCache, leaked, nameOwner, dpdRx, firstRx>>
+                  /\ UNCHANGED <<choice, perm, out, dpdCache, leaked, nameOwner, dpdRx, firstRx, nameMap>>
 SetStable(b, s) == /\ Tick /\ cfg' = [cfg EXCEPT ![b].stable = s]
-                   /\ UNCHANGED <<choice, perm, out, dpdCache, leaked, nameOwner, dpdRx, firstRx>>
+                   /\ UNCHANGED <<choice, perm, out, dpdCache, leaked, nameOwner, dpdRx, firstRx, nameMap>>
 SetScalar(b, x) == /\ Tick /\ cfg' = [cfg EXCEPT ![b].scalar = x]
-                   /\ UNCHANGED <<choice, perm, out, dpdCache, leaked, nameOwner, dpdRx, firstRx>>
+                   /\ UNCHANGED <<choice, perm, out, dpdCache, leaked, nameOwner, dpdRx, firstRx, nameMap>>
 SetCoup(b, x) == /\ Tick /\ cfg' = [cfg EXCEPT ![b].coup = x]
-                 /\ UNCHANGED <<choice, perm, out, dpdCache, leaked, nameOwner, dpdRx, firstRx>>
+                 /\ UNCHANGED <<choice, perm, out, dpdCache, leaked, nameOwner, dpdRx, firstRx, nameMap>>
 \* builder.naming.<flag> = ...: the generator rebuilds its parity-partner map
-SetNaming(b, x) == /\ Tick /\ cfg' = [cfg EXCEPT ![b].naming = x] /\ nameOwner' = b
-                   /\ UNCHANGED <<choice, perm, out, dpdCache, leaked, dpdRx, firstRx>>
+SetNameFlag(b, f, x) == /\ Tick /\ cfg' = [cfg EXCEPT ![b].naming[f] = x] /\ nameOwner' = b
+                        /\ nameMap' = IF "LazyNameMapOnLs" \in Dev /\ f = "ls" THEN nameMap ELSE [nameMap EXCEPT ![b] = cfg'[b].naming]
+                        /\ UNCHANGED <<choice, perm, out, dpdCache, leaked, dpdRx, firstRx>>
 \* dynamics.assign(name, builder): all decays of the resonance with that name
 Assign(b, n, t) == /\ Tick /\ choice' = [choice EXCEPT ![b][n] = t]
-                   /\ UNCHANGED <<cfg, perm, out, dpdCache, leaked, nameOwner, dpdRx, firstRx>>
+                   /\ UNCHANGED <<cfg, perm, out, dpdCache, leaked, nameOwner, dpdRx, firstRx, nameMap>>
 \* adapter.permutate_registered_topologies(): idempotent
 Permutate(b) == /\ Tick /\ perm' = [perm EXCEPT ![b] = TRUE]
-                /\ UNCHANGED <<cfg, choice, out, dpdCache, leaked, nameOwner, dpdRx, firstRx>>
+                /\ UNCHANGED <<cfg, choice, out, dpdCache, leaked, nameOwner, dpdRx, firstRx, nameMap>>
 
 SubstKey(b) == <<cfg[b].stable, cfg[b].scalar>>
 \* an inadmissible configuration makes formulate() raise after it has started filling its
@@ -114,7 +124,9 @@ Formulate(b) ==
          \* the module-level DPD cache entry was built for another reaction over the same particles
          stale5 == "CrossReactionCache" \in Dev /\ usesDpd /\ dpdRx[a] \notin {"", RxOf[b]}
          stale6 == "ProcessWideMemo" \in Dev /\ firstRx \notin {"", RxOf[b]}
-     IN /\ out' = [out EXCEPT ![b] = [key |-> Key(b), stale |-> stale1 \/ stale2 \/ stale3 \/ stale4 \/ stale5 \/ stale6]]
+         \* the generator's parity-partner map was built for other flags than the current ones
+         stale7 == nameMap[b] # cfg[b].naming
+     IN /\ out' = [out EXCEPT ![b] = [key |-> Key(b), stale |-> stale1 \/ stale2 \/ stale3 \/ stale4 \/ stale5 \/ stale6 \/ stale7]]
         /\ firstRx' = IF firstRx = "" THEN RxOf[b] ELSE firstRx
         /\ dpdRx' = IF usesDpd /\ dpdRx[a] = "" THEN [dpdRx EXCEPT ![a] = RxOf[b]] ELSE dpdRx
         /\ dpdCache' = IF "DpdCacheAliasing" \in Dev /\ usesDpd /\ dpdCache[a] = <<>>
@@ -124,13 +136,13 @@ Formulate(b) ==
                      ELSE IF "ResetAtEnd" \in Dev
                      THEN [leaked EXCEPT ![b] = IF Fails(b) THEN {"partial"} ELSE {}]
                      ELSE leaked
-  /\ UNCHANGED <<cfg, choice, perm, nameOwner>>
+  /\ UNCHANGED <<cfg, choice, perm, nameOwner, nameMap>>
 
 Next == \E b \in Builders :
           \/ \E a \in Aligns : SetAlign(b, a)
           \/ \E s \in Stables : SetStable(b, s)
           \/ \E x \in BOOLEAN : SetScalar(b, x) \/ SetCoup(b, x)
-          \/ \E x \in Namings : SetNaming(b, x)
+          \/ \E f \in NameFlags, x \in BOOLEAN : SetNameFlag(b, f, x)
           \/ \E n \in Names, t \in Tags : Assign(b, n, t)
           \/ Permutate(b)
           \/ Formulate(b)
